@@ -353,6 +353,22 @@ def c05(v, h, op, res, k, prev):
                 h.report('C05', f'C05:cancelled-job-started:{op["op"]}', k, {'job': list(j)})
 
 
+def always_run_served(v, h, op, res, k, prev):
+    """Always-run children run regardless of their parents' outcomes (C05), also in a cancelled batch (C39): a scheduling request
+    for an always-run Ready job of a committed update, with a fresh attempt id, on an active instance, is answered rc 0."""
+    if op.get('op') != 'schedule_job' or prev is None:
+        return
+    j = prev.jobs.get((op.get('batch'), op.get('job')))
+    inst = prev.instances.get(op.get('instance'))
+    if j is None or inst is None or not j.always_run or j.state != 'Ready' or not prev.job_committed(j):
+        return
+    if inst[1] != 'active' or (j.b, j.j, op.get('attempt')) in prev.attempts:
+        return
+    if 'ok' not in res or res['ok'].get('rc') != 0:
+        h.report('C05', 'C05:always-run-ready-job-not-scheduled', k, {'job': list(j), 'answer': res})
+        h.report('C39', 'C39:always-run-ready-job-not-scheduled', k, {'job': list(j), 'answer': res})
+
+
 def canceller_picks(v, h, op, res, k, prev):
     """What the canceller's selection queries offer is completed as Cancelled / unscheduled by its loops without further checks:
     they must offer only jobs that is_job_cancelled reports cancelled - never an always_run job (C05: always-run children run
@@ -698,6 +714,7 @@ def check_history(ops, ents, props=None):
         c04(v, h, op, res, k, prev)
         c05(v, h, op, res, k, prev)
         canceller_picks(v, h, op, res, k, prev)
+        always_run_served(v, h, op, res, k, prev)
         c06(v, h, op, res, k, prev)
         c07(v, h, op, res, k, prev)
         c09(v, h, op, res, k, prev, seen)
